@@ -76,19 +76,38 @@ def directed(rng):
     return ("\r\n\t " + t + " \n\n" + t + "\t").encode(), [e, e], "whitespace"
 
 
+SCHEDULES = [None, None, [1], [2], [3, 1], [1, 2, 3, 5], [7], [16], [64, 1], [4096], [8192], [1, 8191]]
+
+
+def delivery(rng):
+    """How the input bytes are handed over: sizes of successive read results (cycled) and calls answered Interrupted.
+    The expected values do not depend on it, so it is free extra reach for look-ahead / buffering defects."""
+    sched = rng.choice(SCHEDULES)
+    if sched is not None and rng.random() < 0.3:
+        sched = [rng.choice((1, 2, 3, 4, 5, 8, 13, 100)) for _ in range(rng.randint(1, 6))]
+    intr = sorted(rng.sample(range(0, 40), rng.randint(1, 4))) if rng.random() < 0.15 else None
+    return sched, intr
+
+
 def gen_unit(rng, tags):
+    sched, intr = delivery(rng)
+    tags.add("delivery:" + ("whole" if sched is None else "1" if sched == [1] else "chunks") + ("+intr" if intr else ""))
     if rng.random() < 0.25:
         data, exp, kind = directed(rng)
         tags.add("directed:" + kind)
-        return {"input": data, "expected": exp, "kind": kind}
+        return {"input": data, "expected": exp, "kind": kind, "rsched": sched, "rintr": intr}
+    if rng.random() < 0.04:
+        # a long stream of small values: token boundaries fall on every offset of any internal buffer size
+        data, exp, spans, info = streams.gen_stream(rng, nvalues=rng.choice((1500, 3000, 6000)), maxdepth=1, tags=tags)
+        return {"input": data, "expected": exp, "kind": "long", "rsched": sched, "rintr": intr}
     data, exp, spans, info = streams.gen_stream(rng, tags=tags)
-    return {"input": data, "expected": exp, "kind": "random"}
+    return {"input": data, "expected": exp, "kind": "random", "rsched": sched, "rintr": intr}
 
 
 def run_unit(ctx, unit):
     st = ctx.stats
     data, exp = unit["input"], unit["expected"]
-    c1 = core.Case([], data)
+    c1 = core.Case([], data, rsched=unit.get("rsched"), rintr=unit.get("rintr"))
     c2 = core.Case(["--on-error", "stderr"], data)
     c3 = core.Case(["--on-error", "panic"], data)
     o1, o2, o3 = ctx.drv.run_many([c1, c2, c3])
